@@ -375,6 +375,11 @@ func ruleC08MixShape(c *Ctx) {
 	}
 	c.Fn("MixArray")
 	loops := rangeLoops(f)
+	if len(loops) == 0 {
+		if c.mixAccumulatorForm(f) {
+			return
+		}
+	}
 	if len(loops) != 1 {
 		c.Unknown("c08.mix-shape", "MixArray", c.P.Pos(f.Pos()), fmt.Sprintf("%d loops", len(loops)))
 		return
@@ -430,6 +435,108 @@ func ruleC08MixShape(c *Ctx) {
 		why = append(why, fmt.Sprintf("iteration paths: array=%d other=%d (exactly one each expected: no further condition)", nArr, nOther))
 	}
 	c.Check(len(why) == 0, "c08.mix-shape", "MixArray", c.P.Pos(f.Pos()), "array => spread of its flattening; other => itself; one append per element", strings.Join(uniq(why), "; "))
+}
+
+// mixAccumulatorForm decides the flattening written with an accumulator: MixArray(data) = h(fresh, data), where h walks
+// data once and, per element, either continues with h(acc, element) for an array element or with append(acc, element)
+// for any other, and returns the accumulator. Returns false when MixArray is not of that form.
+func (c *Ctx) mixAccumulatorForm(f *ssa.Function) bool {
+	var hcall *ssa.Call
+	allInstrs(f, func(_ *ssa.BasicBlock, in ssa.Instruction) {
+		if call, ok := in.(*ssa.Call); ok && isUnknownHelper(call.Common().StaticCallee()) && len(call.Common().Args) == 2 && hcall == nil {
+			hcall = call
+		}
+	})
+	if hcall == nil {
+		return false
+	}
+	h := hcall.Common().StaticCallee()
+	loops := rangeLoops(h)
+	if len(loops) != 1 {
+		return false
+	}
+	lp := loops[0]
+	var why []string
+	tb := NewTB()
+	if a0 := tb.Of(hcall.Common().Args[0]); !isFreshSliceTerm(a0) {
+		why = append(why, "the accumulator handed to "+funcName(h)+" is "+a0.String()+", not a fresh list")
+	}
+	if a1 := tb.Of(hcall.Common().Args[1]); !(a1.Op == "param") {
+		why = append(why, "the list handed to "+funcName(h)+" is "+a1.String()+", not the data")
+	}
+	// MixArray returns what the helper returns
+	allInstrs(f, func(_ *ssa.BasicBlock, in ssa.Instruction) {
+		if r, ok := in.(*ssa.Return); ok && len(r.Results) == 1 && r.Results[0] != ssa.Value(hcall) {
+			why = append(why, "MixArray does not return the helper's list")
+		}
+	})
+	var acc *ssa.Phi
+	for _, in := range lp.header.Instrs {
+		if ph, ok := in.(*ssa.Phi); ok && shortType(ph.Type()) == "[]any" {
+			acc = ph
+		}
+	}
+	if acc == nil {
+		return false
+	}
+	// the accumulator starts as the helper's first parameter and is what the helper returns
+	startsAsParam := false
+	for i, e := range acc.Edges {
+		if !lp.header.Dominates(lp.header.Preds[i]) && e == ssa.Value(h.Params[0]) {
+			startsAsParam = true
+		}
+	}
+	if !startsAsParam {
+		why = append(why, "the helper's accumulator does not start as the list it was handed")
+	}
+	allInstrs(h, func(_ *ssa.BasicBlock, in ssa.Instruction) {
+		if r, ok := in.(*ssa.Return); ok && len(r.Results) == 1 && r.Results[0] != ssa.Value(acc) {
+			why = append(why, "the helper does not return its accumulator")
+		}
+	})
+	paths, err := WalkFrom(h, lp.body, lp.header, WalkCfg{StopAt: func(b *ssa.BasicBlock) bool { return b == lp.header }, MaxVisits: 1})
+	if err != nil {
+		c.Unknown("c08.mix-shape", "MixArray", c.P.Pos(f.Pos()), err.Error())
+		return true
+	}
+	nArr, nOther := 0, 0
+	for _, p := range paths {
+		if p.Exit != "stop" {
+			why = append(why, "an iteration leaves the loop ("+p.Exit+")")
+			continue
+		}
+		isArr, has := false, false
+		for k, v := range p.Asg {
+			if kt := p.KeyTerm[k]; kt != nil && kt.Op == "ext" && kt.Name == "1" && kt.Args[0].Op == "assertok" && kt.Args[0].Name == "[]any" {
+				has, isArr = true, isTrueC(v)
+			}
+		}
+		if !has {
+			why = append(why, "an iteration does not test whether the element is an array")
+			continue
+		}
+		next := p.PhiIn[acc].T
+		if isArr {
+			nArr++
+			okRec := next != nil && next.Op == "call" && next.Name == funcName(h) && len(next.Args) == 2 && next.Args[0].V == ssa.Value(acc) &&
+				strings.Contains(next.Args[1].String(), "assertok[[]any]") && elemOfLoop(next.Args[1].Args[0].Args[0], lp)
+			if !okRec {
+				why = append(why, "an array element contributes "+termStr(next)+" instead of its own flattening appended to the list so far")
+			}
+		} else {
+			nOther++
+			okApp := next != nil && next.Op == "call" && next.Name == "builtin:append" && len(next.Args) == 2 && next.Args[0].V == ssa.Value(acc) &&
+				next.Args[1].Op == "varargs" && len(next.Args[1].Args) == 1 && elemOfLoop(next.Args[1].Args[0], lp)
+			if !okApp {
+				why = append(why, "a non-array element contributes "+termStr(next)+" instead of itself")
+			}
+		}
+	}
+	if nArr != 1 || nOther != 1 {
+		why = append(why, fmt.Sprintf("iteration paths: array=%d other=%d (exactly one each expected: no further condition)", nArr, nOther))
+	}
+	c.Check(len(why) == 0, "c08.mix-shape", "MixArray", c.P.Pos(f.Pos()), "accumulator form: array => its flattening appended; other => itself; one step per element", strings.Join(uniq(why), "; "))
+	return true
 }
 
 // ruleC08AsArrayIdentity: a []any source is taken as it is.
